@@ -147,11 +147,19 @@ impl ModelChecker {
 
         // sort starting states by increasing depth to produce shorter error traces
         states.sort_by_key(|x| x.depth);
+        // each run rolls back to its start state, so the state before the runs is restored explicitly
+        let initial_state = self.system.get_state();
         for state in states {
             self.system.set_state(state);
-            let stats = self.run_impl(&mut strategy, &preliminary_callback)?;
-            total_stats.combine(stats);
+            match self.run_impl(&mut strategy, &preliminary_callback) {
+                Ok(stats) => total_stats.combine(stats),
+                Err(err) => {
+                    self.system.set_state(initial_state);
+                    return Err(err);
+                }
+            }
         }
+        self.system.set_state(initial_state);
         Ok(total_stats)
     }
 }
